@@ -1468,6 +1468,11 @@ class Interp:
             if isinstance(a, Vec) and isinstance(b, Vec) and len(a) != len(b):
                 raise AnalysisError('comparison of arrays of different lengths')
             return Vec([self.compare(op, a[i_] if isinstance(a, Vec) else a, b[i_] if isinstance(b, Vec) else b, e, fr) for i_ in range(n_)])
+        if isinstance(op, (ast.Eq, ast.NotEq)) and (isinstance(a, (list, tuple)) or isinstance(b, (list, tuple)) or hasattr(a, 'nt_fields') or hasattr(b, 'nt_fields')) \
+                and not isinstance(a, Vec) and not isinstance(b, Vec):
+            # Python's structural equality of containers: a list never equals a tuple, a named tuple is a tuple, numbers compare by value
+            r_ = self._struct_eq(a, b)
+            return r_ if isinstance(op, ast.Eq) else not r_
         if isinstance(a, (str, type(None), tuple)) or isinstance(b, (str, type(None), tuple)):
             if isinstance(op, ast.Eq): return a == b
             if isinstance(op, ast.NotEq): return a != b
@@ -1477,6 +1482,29 @@ class Interp:
         if ca is not None and cb is not None:
             return {'<': ca < cb, '<=': ca <= cb, '>': ca > cb, '>=': ca >= cb, '==': ca == cb, '!=': ca != cb}[sym]
         return X.cmp(sym, to_node(a), to_node(b))
+
+    def _struct_eq(self, a, b):
+        def seq(v):
+            if hasattr(v, 'nt_fields') and isinstance(getattr(v, 'attrs', {}).get('__iter__'), (list, tuple)): return ('tuple', list(v.attrs['__iter__']))
+            if isinstance(v, Vec): return ('array', list(v))
+            if isinstance(v, tuple): return ('tuple', list(v))
+            if isinstance(v, list): return ('list', list(v))
+            return None
+        sa, sb = seq(a), seq(b)
+        if sa is not None or sb is not None:
+            if sa is None or sb is None or sa[0] != sb[0] or len(sa[1]) != len(sb[1]):
+                return False
+            return all(self._struct_eq(x_, y_) for x_, y_ in zip(sa[1], sb[1]))
+        a = unbox(a); b = unbox(b)
+        if isinstance(a, (str, type(None), bool)) or isinstance(b, (str, type(None), bool)):
+            return a == b
+        ca, cb = concrete(a) if isinstance(a, (Node, int, Fraction)) else None, concrete(b) if isinstance(b, (Node, int, Fraction)) else None
+        if ca is not None and cb is not None:
+            return ca == cb
+        if isinstance(a, Node) and isinstance(b, Node):
+            if a.uid == b.uid: return True
+            raise AnalysisError('equality of containers holding different symbolic values')
+        return a is b
 
     def e_IfExp(self, e, fr):
         c = self.truth(self.eval(e.test, fr), e, fr)
